@@ -31,6 +31,7 @@ def run(db, rep, feat, tier):
     r4(db, rep)
     r5(db, rep)
     r6(db, rep)
+    r7(db, rep)
     r1(db, rep, r3ok)
 
 
@@ -283,6 +284,34 @@ def r6(db, rep):
     inc = any(last_seg(n.get("fn", {}).get("ctor_of", "") or "") == "Included" for n in walk(hb["body"]) if n.get("k") == "Call")
     r.decide(okdir and inc, "section_address|candidate", db.where(hb),
              "candidate must be the last section of the range ..=address")
+
+
+def r7(db, rep):
+    r = rep.rule("R7", "K9", "set_memory: a section split off an older section keeps that section's permissions; only "
+                 "the new region takes the permissions parameter; get() assembles bytes through get8 only (never "
+                 "through the single-section 32-bit accessor)")
+    body = db.mir[M + "::set_memory"]
+    tm = Terms(body, db)
+    n = 0
+    for i, t in mir_calls(body):
+        if mir_callee(t) == "memory::backing::Section::new":
+            data, perm = tm.operand(t["args"][0]), tm.operand(t["args"][1])
+            from_split = any(last_seg(c[1]) == "split_off" for c in calls_in(data))
+            key = "set_memory|section_new|%d" % n
+            n += 1
+            if from_split:
+                ok = any(last_seg(c[1]) == "permissions" for c in calls_in(perm)) and ("param", 4) not in list(subterms(perm))
+                r.decide(ok, key, db.where(body, t["l"]),
+                         "the tail split off an older section takes %s instead of the older section's permissions" % show(perm)[:60])
+            else:
+                ok = perm == ("param", 4) and 3 in params_of(data)
+                r.decide(ok, key, db.where(body, t["l"]), "the new region must take the data and permissions parameters")
+    r.floor(3, "two split-off tails and the new region")
+    g = panics.call_graph(db)
+    reach = g.reach([M + "::get"])
+    bad = [f for f in reach if f in (M + "::get32",)]
+    r.decide(not bad, "get|bytewise", db.where(db.mir[M + "::get"]),
+             "get() reaches get32, which only reads inside one section: a read across adjacent sections is lost")
 
 
 # ------------------------------------------------------------------------------------------------ R1
